@@ -6,7 +6,8 @@ LoopModel (coq/C04_Model.v) is parametrised, read from the clang JSON AST of the
       the condition guarding wakeup() in EventLoop::queueInLoop (true if wakeup() is called
       unconditionally, false if it is not called at all);
   quit_wake_test (in_loop_thread : bool) : bool        the same for EventLoop::quit;
-  loop_resets_quit : bool     does EventLoop::loop() assign quit_ = false before its while loop.
+  loop_resets_quit : rmode    where EventLoop::loop() assigns quit_ = false: before its while loop
+                              (ResetEntry), after it (ResetExit) or nowhere (ResetNone).
 
 Properties_C04.v / Properties_C05.v state their theorems about  Gen_C04.gen_shape ; which of the
 theorem / refutation branches applies is decided inside Coq by computing the wake-up test on the
@@ -96,25 +97,44 @@ def guard_of(fn, member):
 
 
 def loop_resets(fn):
+    """Where EventLoop::loop() assigns `quit_ = false` at its top level: before the while loop
+    (ResetEntry), after it (ResetExit), nowhere (ResetNone).  Anything else (both places, another
+    value, an assignment inside the while loop) is untranslatable."""
     body = cxxast.body(fn)
-    found, src = False, "(no assignment quit_ = false before the while loop)"
+    before, after = [], []
     seen_while = False
     for c in kids(body):
         if c.get("kind") == "WhileStmt":
+            if seen_while:
+                raise cxxast.Untranslatable("more than one while loop at the top level of EventLoop::loop")
             seen_while = True
-            break
+            for n in cxxast.walk(c):
+                if n.get("kind") in ("BinaryOperator", "CXXOperatorCallExpr") and n.get("opcode", "=") == "=":
+                    ks = kids(n)
+                    lhs = cxxast.strip(ks[0]) if ks else {}
+                    if n.get("kind") == "CXXOperatorCallExpr" and len(ks) > 1:
+                        lhs = cxxast.strip(ks[1])
+                    if lhs.get("kind") == "MemberExpr" and lhs.get("name") == "quit_":
+                        raise cxxast.Untranslatable("assignment to quit_ inside the while loop of EventLoop::loop")
+            continue
         if c.get("kind") in ("BinaryOperator", "CXXOperatorCallExpr"):
             names = [n.get("name") for n in cxxast.walk(c) if n.get("kind") == "MemberExpr"]
             lits = [n.get("value") for n in cxxast.walk(c) if n.get("kind") == "CXXBoolLiteralExpr"]
             txt = " ".join(cxxast.src_text(c, REL).split())
             if "quit_" in names and "=" in txt:
                 if lits == [False]:
-                    found, src = True, txt
+                    (after if seen_while else before).append(txt)
                 else:
                     raise cxxast.Untranslatable("assignment to quit_ that is not `= false`: " + txt)
     if not seen_while:
         raise cxxast.Untranslatable("no while loop at the top level of EventLoop::loop")
-    return found, src
+    if before and after:
+        raise cxxast.Untranslatable("quit_ = false both before and after the while loop")
+    if before:
+        return "ResetEntry", "before the while loop: " + before[0]
+    if after:
+        return "ResetExit", "after the while loop: " + after[0]
+    return "ResetNone", "(no assignment quit_ = false at the top level of loop())"
 
 
 def clean(s):
@@ -141,8 +161,8 @@ def main():
         msgs.append("MISSING quit_wake_test (%s)" % e)
     try:
         r, src = loop_resets(cxxast.function_decl(REL, "EventLoop::loop"))
-        out.append("(* %s, EventLoop::loop, before the while loop: %s *)" % (REL, clean(src)))
-        out.append("Definition loop_resets_quit : bool := %s." % ("true" if r else "false"))
+        out.append("(* %s, EventLoop::loop, %s *)" % (REL, clean(src)))
+        out.append("Definition loop_resets_quit : C04_Model.rmode := C04_Model.%s." % r)
     except Exception as e:  # noqa
         out.append("(* MISSING loop_resets_quit: %s *)" % clean(str(e)))
         msgs.append("MISSING loop_resets_quit (%s)" % e)
